@@ -296,7 +296,12 @@ func (c *FIFO) Put(b bgzf.Block) (evicted bgzf.Block, retained bool) {
 	defer c.mu.Unlock()
 
 	var d bgzf.Block
-	if _, ok := c.table[b.Base()]; ok {
+	if n, ok := c.table[b.Base()]; ok {
+		if n.b == b {
+			// Get does not remove used blocks, so b is still held
+			// by the cache and must not be handed back for reuse.
+			return nil, false
+		}
 		return b, false
 	}
 	used := b.Used()
